@@ -3,8 +3,6 @@ package exec
 import (
 	"context"
 	"fmt"
-	"maps"
-	"slices"
 
 	"github.com/theory/sqljson/path/ast"
 )
@@ -76,7 +74,7 @@ func (exec *Executor) execAnyKey(
 	switch value := value.(type) {
 	case map[string]any:
 		return exec.executeAnyItem(
-			ctx, node.Next(), slices.Collect(maps.Values(value)), found,
+			ctx, node.Next(), memberValues(value), found,
 			1, 1, 1, false, exec.autoUnwrap(),
 		)
 	case []any:
